@@ -48,6 +48,8 @@ def to_value(v):
         env.vars["x"] = CV(v["ctype"], v["cell"])
         env.ctypes["x"] = v["ctype"]
         return Cell(env, "x")
+    if isinstance(v, dict) and "tuple" in v:
+        return tuple(to_value(x) for x in v["tuple"])
     if isinstance(v, list):
         return PList([to_value(x) for x in v])
     return v
@@ -87,6 +89,9 @@ def from_value(v):
         return [from_value(x) for x in v.items]
     if isinstance(v, (int, str, bool)) or v is None:
         return v
+    if isinstance(v, Obj):
+        return {"obj": v.cls.name, "attrs": {k: from_value(x) for k, x in v.attrs.items()
+                                             if isinstance(x, (SymArr, CV, int, bool, str, z3.ExprRef)) or x is None}}
     return repr(v)
 
 
@@ -110,7 +115,7 @@ def run_one(target, args, kwargs):
         out = {"outcome": "unsupported", "error": str(e)}
     except PathEnd:
         out = {"outcome": "undefined-behaviour"}
-    out["args_after"] = [from_value(v) if isinstance(v, (SymArr, Cell)) else None for v in vals]
+    out["args_after"] = [from_value(v) if isinstance(v, (SymArr, Cell, Obj)) else None for v in vals]
     out["failed_safety_obligations"] = [o.name for o in cx.obligations if z3.is_false(z3.simplify(o.goal))]
     return out
 
